@@ -33,6 +33,11 @@ type Spec struct {
 	// validation run that differs (scheduling jitter) is retried and, if it still
 	// differs, reported as a note, not as a failure of the check.
 	TimedNative bool
+	// EngineOnly: harnesses that depend on substituted functions and therefore
+	// cannot run natively: their sampled paths are not part of the native
+	// differential validation, and their counterexamples are confirmed by
+	// concrete re-execution of the real code in the engine only.
+	EngineOnly   []string
 	AllowBlocked bool
 	ValidateN    int
 }
